@@ -312,6 +312,16 @@ def _check(case, chain):
         for cut in range(len(F)):
             expect_reject(parse_stream(io.BytesIO(F[:cut])), 'truncation', trunc=True)
             evals += 1
+        # a stream whose FINAL frame is cut short: the complete frames parse, the last one raises the truncation error
+        if len(frames) >= 2:
+            m2, F2 = frames[1]
+            for cut in sorted({0, 1, 4, 16, 20, 23, 24, 25, len(F2) // 2, len(F2) - 1} & set(range(len(F2)))):
+                g = io.BytesIO(F + F2[:cut])
+                r1 = parse_stream(g)
+                if r1[0] != 'msg' or g.tell() != len(F):
+                    raise Violation('stream/first-of-truncated-stream', 'first frame of a stream with a truncated second frame was not parsed exactly')
+                expect_reject(parse_stream(g), 'truncation-in-stream', trunc=True)
+                evals += 2
         nt = True
         cls.append('faults')
     return {'nt': nt, 'evals': evals, 'cls': cls, 'digest': digest(case)}
